@@ -95,6 +95,9 @@ def build(sym, last, arg=None):
         return adv_bytes(ADV_ID, seal(g, g, iid, val, aad=OTHER_ID)), dict(authentic=False, gsn=g)
     if sym == "other-header-id":
         return adv_bytes(OTHER_ID, seal(g, g, iid, val)), dict(authentic=False, gsn=g)
+    if sym == "foreign-id-consistent":
+        # sealed with the right key and a fresh state number but for ANOTHER advertising identifier (field and AAD agree), sent from this accessory's bluetooth address
+        return adv_bytes(OTHER_ID, seal(g, g, iid, val, aad=OTHER_ID)), dict(authentic=False, gsn=g)
     if sym == "inner-mismatch":
         return adv_bytes(ADV_ID, seal(g, g + 1, iid, val)), dict(authentic=True, inner_ok=False, gsn=g, iid=iid, value8=val)
     if sym == "inner-mismatch-old":
@@ -118,7 +121,7 @@ def build(sym, last, arg=None):
     raise core.HarnessError(sym)
 
 
-SYMS = ["+1", "+2", "+50", "+99", "same", "-1", "-5", "+100", "+150", "wrong-key", "other-adv-id-aad", "other-header-id", "inner-mismatch", "inner-mismatch-old", "unknown-iid"]
+SYMS = ["+1", "+2", "+50", "+99", "same", "-1", "-5", "+100", "+150", "wrong-key", "other-adv-id-aad", "other-header-id", "foreign-id-consistent", "inner-mismatch", "inner-mismatch-old", "unknown-iid"]
 
 
 def _utf8(b):
